@@ -17,7 +17,11 @@ import (
 type pathEvent struct {
 	Name string
 	Ins  ssa.Instruction
+	Env  *venv // parameter bindings of the helpers entered on the way (nil in the function itself)
 }
+
+// same compares a value at the event with a value of the enumerated function.
+func (e pathEvent) same(inner, outer ssa.Value) bool { return sameE(inner, e.Env, outer, nil, 0) }
 
 type pathCfg struct {
 	// leaf recognises a guard: its name and whether the condition is the negation of the guard
@@ -32,6 +36,7 @@ type pathCfg struct {
 type pathFrame struct {
 	path []*ssa.BasicBlock
 	on   map[*ssa.BasicBlock]int
+	env  *venv
 }
 
 func evalPathsDeep(fn *ssa.Function, cfg pathCfg, visit func(assign map[string]bool, events []pathEvent, ret *ssa.Return) bool) (okAll bool, why string) {
@@ -131,7 +136,7 @@ func evalPathsDeep(fn *ssa.Function, cfg pathCfg, visit func(assign map[string]b
 						why = "an event lies inside a loop"
 						return false
 					}
-					ev = append(ev[:len(ev):len(ev)], pathEvent{nm, ins})
+					ev = append(ev[:len(ev):len(ev)], pathEvent{nm, ins, fr.env})
 					continue
 				}
 				if cc, isDefer, isGo := callCommon(ins); cc != nil && !isGo && !isDefer && depth < 3 {
@@ -145,7 +150,12 @@ func evalPathsDeep(fn *ssa.Function, cfg pathCfg, visit func(assign map[string]b
 						})
 						if has {
 							next := i + 1
-							sub := &pathFrame{on: map[*ssa.BasicBlock]int{}}
+							sub := &pathFrame{on: map[*ssa.BasicBlock]int{}, env: &venv{bind: map[*ssa.Parameter]ssa.Value{}, outer: fr.env}}
+							for j, par := range o.Params {
+								if j < len(cc.Args) {
+									sub.env.bind[par] = cc.Args[j]
+								}
+							}
 							return enter(o.Blocks[0], sub, depth+1, ev, func(ev2 []pathEvent, _ *ssa.Return) bool {
 								return instrs(b, next, fr, depth, ev2, k)
 							})
